@@ -70,10 +70,11 @@ VARIABLES
   ackPt,     \* [Side -> highest cumulative TSN ack received from the peer] (RFC 3758: updated by SACKs)
   advPt,     \* [Side -> Advanced.Peer.Ack.Point]
   fwd,       \* [Side -> last FORWARD-TSN sent: [on, fr (stream / ssn of the skipped message), n]]
-  net, wire, held, lastDel, cnt, faults, budget
+  net, wire, held, lastDel, cnt, faults, budget,
+  hole       \* [Side -> relative TSNs of that side's DATA chunks every transmission of which is lost]
 
 vars == <<st, t1, t1cnt, itsn, answered, next, rx, sentQ, outQ, sub, ssnOut, deliv, opens, ackPt, advPt, fwd,
-          net, wire, held, lastDel, cnt, faults, budget>>
+          net, wire, held, lastDel, cnt, faults, budget, hole>>
 
 Ordered == [c \in ChanIds |-> Chans[c].ord]
 
@@ -97,10 +98,11 @@ Stamp(p) == IF NetMode = "fifo" /\ p.k # "DATA"
             ELSE IF NetMode = "set" THEN [p EXCEPT !.o = 0] ELSE p
 Count(c, p) == IF IsGapSack(p) THEN [c EXCEPT ![p.src][p.k] = @ + 1, ![p.src]["GSACK"] = @ + 1]
                ELSE [c EXCEPT ![p.src][p.k] = @ + 1]
+Holed(p) == p.k = "DATA" /\ RelTsn(p) \in hole[p.src]
 \* packets that may be handed to side `to` now
 Avail(to) ==
   IF NetMode = "set" THEN {p \in net : p.src = Peer(to)}
-  ELSE IF wire[Peer(to)] # <<>> THEN {Head(wire[Peer(to)])} ELSE {}
+  ELSE IF wire[Peer(to)] # <<>> /\ ~Holed(Head(wire[Peer(to)])) THEN {Head(wire[Peer(to)])} ELSE {}
 \* `to` consumed p and sends the packets of `out` (a sequence of length 0 or 1)
 NetRecv(to, p, out) ==
   IF NetMode = "set"
@@ -122,7 +124,7 @@ NetSame == UNCHANGED <<net, wire, held, lastDel, cnt>>
 \* fifo mode: retransmission timers are long compared with the network latency, so they fire only
 \* when nothing is in flight (a packet taken aside by Hold is delayed beyond the timer)
 TimersMayFire == wire["A"] = <<>> /\ wire["B"] = <<>>
-NoFault == UNCHANGED <<faults, budget>>
+NoFault == UNCHANGED <<faults, budget, hole>>
 PrSame == UNCHANGED <<ackPt, advPt, fwd>>
 
 ---------------------------------------------------------------------------
@@ -150,6 +152,7 @@ Init ==
   /\ cnt = [s \in Side |-> [k \in Kinds |-> 0]]
   /\ faults = <<>>
   /\ budget = Budget
+  /\ hole = [s \in Side |-> {}]
 
 \* take the messages a handler step produced for the application
 Deliver(s, r) ==
@@ -286,7 +289,10 @@ Abandon(s) ==
        /\ Chans[x.fr.ch].pr
        /\ LET same(f) == f.ch = x.fr.ch /\ f.m = x.fr.m
           IN /\ \A k \in 1..Len(outQ[s]) : ~same(outQ[s][k])  \* the whole message has been given TSNs
-             /\ sentQ' = [sentQ EXCEPT ![s] = {IF same(y.fr) THEN [y EXCEPT !.ab = TRUE] ELSE y : y \in @}]
+             \* every fragment, also those the peer has already gap-acknowledged (deviation
+             \* "PartialAbandon": only the unacknowledged ones)
+             /\ sentQ' = [sentQ EXCEPT ![s] = {IF same(y.fr) /\ ("PartialAbandon" \notin Deviations \/ ~y.acked)
+                                               THEN [y EXCEPT !.ab = TRUE] ELSE y : y \in @}]
   /\ UNCHANGED <<st, t1, t1cnt, itsn, answered, next, rx, outQ, sub, ssnOut, deliv, opens>> /\ PrSame /\ NetSame /\ NoFault
 
 \* the Advanced.Peer.Ack.Point moves over the abandoned message that follows it
@@ -297,8 +303,11 @@ Advance(s) ==
      IN \E x \in sentQ[s] :
        /\ x.tsn = Inc(adv0, M) /\ x.ab
        /\ LET same(f) == f.ch = x.fr.ch /\ f.m = x.fr.m
-              run == {y \in sentQ[s] : same(y.fr)}
-              top == CHOOSE y \in run : \A z \in run : ~TsnGT(z.tsn, y.tsn)
+              \* the point moves over the consecutive abandoned chunks (of this message) that follow it
+              RECURSIVE LastAb(_)
+              LastAb(t) == IF \E y \in sentQ[s] : y.tsn = Inc(t, M) /\ y.ab /\ same(y.fr)
+                           THEN LastAb(Inc(t, M)) ELSE t
+              top == CHOOSE y \in sentQ[s] : y.tsn = LastAb(x.tsn)
           IN /\ sentQ' = [sentQ EXCEPT ![s] = {y \in @ : TsnGT(y.tsn, top.tsn)}]
              /\ advPt' = [advPt EXCEPT ![s] = top.tsn]
              /\ fwd' = [fwd EXCEPT ![s] = [on |-> TRUE, fr |-> x.fr, n |-> 1]]
@@ -374,20 +383,20 @@ Drop(d) ==
   /\ wire' = [wire EXCEPT ![d] = Tail(@)]
   /\ faults' = Append(faults, FaultRec(d, Head(wire[d]), "drop", NoAfter))
   /\ budget' = budget - 1
-  /\ UNCHANGED <<net, held, lastDel, cnt>> /\ ProtoSame
+  /\ UNCHANGED <<net, held, lastDel, cnt>> /\ ProtoSame /\ UNCHANGED hole
 Dup(d) ==
   /\ NetMode = "fifo" /\ budget > 0 /\ wire[d] # <<>>
   /\ wire' = [wire EXCEPT ![d] = <<Head(@)>> \o @]
   /\ faults' = Append(faults, FaultRec(d, Head(wire[d]), "dup", NoAfter))
   /\ budget' = budget - 1
-  /\ UNCHANGED <<net, held, lastDel, cnt>> /\ ProtoSame
+  /\ UNCHANGED <<net, held, lastDel, cnt>> /\ ProtoSame /\ UNCHANGED hole
 \* take the head aside (delay / reorder) or keep a copy aside (late duplicate)
 Hold(d, copy) ==
   /\ NetMode = "fifo" /\ budget > 0 /\ wire[d] # <<>> /\ held[d] = {}
   /\ held' = [held EXCEPT ![d] = {[p |-> Head(wire[d]), kind |-> IF copy THEN "duplate" ELSE "hold"]}]
   /\ wire' = IF copy THEN wire ELSE [wire EXCEPT ![d] = Tail(@)]
   /\ budget' = budget - 1
-  /\ UNCHANGED <<net, lastDel, cnt, faults>> /\ ProtoSame
+  /\ UNCHANGED <<net, lastDel, cnt, faults>> /\ ProtoSame /\ UNCHANGED hole
 Release(d) ==
   /\ NetMode = "fifo" /\ held[d] # {}
   /\ lastDel[d].k # "NONE"                       \* something overtook it, otherwise nothing happened
@@ -396,12 +405,29 @@ Release(d) ==
         /\ wire' = [wire EXCEPT ![d] = <<h.p>> \o @]
         /\ faults' = Append(faults, FaultRec(d, h.p, h.kind, lastDel[d]))
   /\ held' = [held EXCEPT ![d] = {}]
-  /\ UNCHANGED <<net, lastDel, cnt, budget>> /\ ProtoSame
+  /\ UNCHANGED <<net, lastDel, cnt, budget>> /\ ProtoSame /\ UNCHANGED hole
 
-Fault == \E d \in Side : Drop(d) \/ Dup(d) \/ Hold(d, TRUE) \/ Hold(d, FALSE) \/ Release(d)
+\* persistent loss by content: from now on every transmission of this DATA chunk is lost (one unit of
+\* budget).  Only chunks of partially reliable channels: abandonment is what resolves it.
+Blackhole(d) ==
+  /\ NetMode = "fifo" /\ budget > 0 /\ wire[d] # <<>>
+  /\ LET p == Head(wire[d]) IN
+       /\ p.k = "DATA" /\ Chans[p.fr.ch].pr /\ ~Holed(p)
+       /\ hole' = [hole EXCEPT ![d] = @ \cup {RelTsn(p)}]
+       /\ faults' = Append(faults, FaultRec(d, p, "dropall", NoAfter))
+  /\ budget' = budget - 1
+  /\ UNCHANGED <<net, wire, held, lastDel, cnt>> /\ ProtoSame
+\* the network swallows a holed packet (no budget: the fault was paid for once)
+HoleDrop(d) ==
+  /\ NetMode = "fifo" /\ wire[d] # <<>> /\ Holed(Head(wire[d]))
+  /\ wire' = [wire EXCEPT ![d] = Tail(@)]
+  /\ UNCHANGED <<net, held, lastDel, cnt, faults, budget, hole>> /\ ProtoSame
+
+Fault == \E d \in Side : Drop(d) \/ Dup(d) \/ Hold(d, TRUE) \/ Hold(d, FALSE) \/ Release(d) \/ Blackhole(d)
 
 Proto ==
   \/ SendInit \/ T1Expire
+  \/ \E d \in Side : HoleDrop(d)
   \/ \E s \in Side : AppSend(s) \/ TransmitNew(s) \/ Rtx(s) \/ Abandon(s) \/ Advance(s) \/ ResendFwd(s)
   \/ \E s \in Side : \E p \in Avail(s) :
         \/ RecvData(s, p) \/ RecvSack(s, p) \/ RecvFwd(s, p)
